@@ -336,19 +336,26 @@ static void do_del(struct slot *s, int free_it, const char *where);
 static void sigcb(evutil_socket_t fd, short what, void *arg)
 {
 	struct slot *s = arg;
-	int S = s->sig_i;
+	int S = s->sig_i, cont;
 	cb_in_iter++; case_callbacks++;
 	tr("  callback ev=%d SIG%s what=0x%x added=%d calls=%ld credit=%ld", s->id, SIGN[S], what, s->added, s->calls + 1, s->credit);
 	c_stat(in_grandchild ? "callbacks_child" : "callbacks");
 	if (fd != SIGS[S] || what != EV_SIGNAL)
 		c_viol("C07:callback-wrong-args", "event %d for SIG%s called with fd=%d what=0x%x", s->id, SIGN[S], (int)fd, what);
-	if (!s->added && !(s->burst && last_cb == s)) {
+	cont = s->burst && last_cb == s;
+	if (cont && s->added && !s->persist && !event_pending(s->ev, EV_SIGNAL, NULL)) {
+		/* CALIBRATED (thorough seed 2, case 8717): a one-shot event re-added by its own callback and activated
+		 * again within the same loop iteration (second signalfd read) is a new activation - the library removed
+		 * it again before this call - and not the continuation of the burst; event_pending() tells the two apart. */
+		cont = 0; c_stat("oneshot_reactivated_in_same_iteration");
+	}
+	if (!s->added && !cont) {
 		char key[80];
 		snprintf(key, sizeof(key), "C07:callback-after-%s%s", s->persist ? "del" : "oneshot-done-or-del", where_sfx);
 		c_viol(key, "event %d (SIG%s, %s) called while not added (mech=%s backend=%s)", s->id, SIGN[S],
 			s->persist ? "persist" : "one-shot", mech_sigfd ? "signalfd" : "selfpipe", BACKENDS[backend_i]);
 	}
-	if (s->added && !s->persist && !(s->burst && last_cb == s)) {
+	if (s->added && !s->persist && !cont) {
 		/* Appendix A: a one-shot event is deleted before its callback(s) */
 		s->added = 0; s->burst = 1; count_added[S]--;
 		c_stat("oneshot_autodel");
